@@ -42,6 +42,14 @@ fn edge_variant<H: Hist>(variant: &str) -> (Vec<f64>, Vec<f64>) {
     let n = H::LEN + 1;
     let base: Vec<f64> = (0..n).map(|i| i as f64).collect();
     match variant {
+        // B differs from A by ONE ULP in one edge (an equality test with a tolerance lets it pass)
+        "one-ulp-differs" => {
+            let mut a = base.clone();
+            a[n - 1] = 0.3 + (n - 1) as f64;
+            let mut b = a.clone();
+            b[n - 1] = crate::refmodels::hist::next_up(a[n - 1]);
+            (a, b)
+        }
         // B differs from A only in its last edge
         "finite/last-edge-differs" => {
             let mut b = base.clone();
@@ -412,7 +420,7 @@ fn pool<H: Hist>(variant: &'static str, depth: usize, budget: u64) -> Box<dyn Ch
 pub fn plan(tier: Tier) -> Plan {
     let q = tier == Tier::Quick;
     let mut checks: Vec<Box<dyn Check>> = Vec::new();
-    let variants = ["finite/last-edge-differs", "infinite-outer/differs", "zero-width/same", "signed-zero"];
+    let variants = ["finite/last-edge-differs", "one-ulp-differs", "infinite-outer/differs", "zero-width/same", "signed-zero"];
     for v in variants {
         checks.push(pool::<H1>(v, if q { 5 } else { 7 }, 9));
         checks.push(pool::<H2>(v, if q { 4 } else { 6 }, 9));
